@@ -3,6 +3,7 @@ package main
 // rtv check: decide one property; write evidence; print VIOLATION / KNOWN-FINDING lines.
 
 import (
+	"regexp"
 	"encoding/json"
 	"flag"
 	"fmt"
@@ -212,9 +213,9 @@ func cmdCheck(args []string) {
 				continue
 			}
 			total++
-			allNames = append(allNames, o.Name)
+			allNames = append(allNames, lockName(o.Name))
 			if stableKind(o.Kind) {
-				stableNames = append(stableNames, o.Name)
+				stableNames = append(stableNames, lockName(o.Name))
 			}
 			if o.Result == "unsat" {
 				discharged++
@@ -249,6 +250,7 @@ func cmdCheck(args []string) {
 
 	if *baseline {
 		sort.Strings(stableNames)
+		stableNames = uniqStrings(stableNames)
 		lock.Obligations[*prop] = stableNames
 		lock.Counts[*prop] = total
 		b, _ := json.MarshalIndent(lock, "", " ")
@@ -407,3 +409,19 @@ func propertyExtras(prop string) map[string]interface{} { return nil }
 
 // tryReplay: see replay.go
 var _ = strings.TrimSpace
+
+var reLockSuffix = regexp.MustCompile(`(@b[0-9]+|#[0-9]+)+$`)
+
+// lockName: the part of an obligation name that survives harmless edits (block numbers of return sites and ordinals of
+// repeated call sites are dropped).
+func lockName(n string) string { return reLockSuffix.ReplaceAllString(n, "") }
+
+func uniqStrings(xs []string) []string {
+	var out []string
+	for i, x := range xs {
+		if i == 0 || x != xs[i-1] {
+			out = append(out, x)
+		}
+	}
+	return out
+}
